@@ -331,12 +331,14 @@ impl<'a> Reader for ProtobufReader<'a> {
         // signed types, while the inner branches determine 32- or 64-bitness
         #[allow(clippy::collapsible_if)]
         if const_unwrap_or!(C::MIN, 0) >= 0 {
-            if const_unwrap_or!(C::MAX, i64::MAX) <= i64::from(u32::MAX) {
+            // the root bounds of an extensible constraint say nothing about the value: 64 bit, as the schema declares
+            if !C::EXTENSIBLE && const_unwrap_or!(C::MAX, i64::MAX) <= i64::from(u32::MAX) {
                 reader.read_uint32().map(|v| T::from_i64(v as i64))
             } else {
                 reader.read_uint64().map(|v| T::from_i64(v as i64))
             }
-        } else if const_unwrap_or!(C::MIN, i64::MIN) >= i64::from(i32::MIN)
+        } else if !C::EXTENSIBLE
+            && const_unwrap_or!(C::MIN, i64::MIN) >= i64::from(i32::MIN)
             && const_unwrap_or!(C::MAX, i64::MAX) <= i64::from(i32::MAX)
         {
             reader.read_sint32().map(|v| T::from_i64(v as i64))
